@@ -158,13 +158,15 @@ def gen_change(rnd, tree, depth=0, max_leaves=6, allow_remove=True, counter=None
     return leaf, apply(tree, leaf)
 
 
-def gen_dependent_chain(rnd, tree):
+def gen_dependent_chain(rnd, tree, allow_remove=False):
     """create folder -> create file in it -> move a file into it -> edit the moved file."""
     name = next((n for n in ["nd", "nd2", "nd3"] if n not in tree), None)
     if name is None or not files(tree):
-        return gen_change(rnd, tree)
+        return gen_change(rnd, tree, allow_remove=allow_remove)
     src = rnd.choice(files(tree))
     base = src.rsplit("/", 1)[-1]
+    if base == "new.py":
+        base = "new2.py"
     steps = [["mkdir", "", name], ["mkfile", name, "new.py"], ["move", src, f"{name}/{base}"],
              ["edit", f"{name}/{base}", "moved = True\n"], ["edit", f"{name}/{base}", "moved = 2\n"]]
     steps = steps[: rnd.randint(2, len(steps))]
